@@ -51,7 +51,7 @@ class AttributeAnnotation:
 def attribute_annotations(
     cls: type[Any],
     /,
-    type_parameters: dict[str, Any] | None = None,
+    type_parameters: dict[Any, Any] | None = None,
 ) -> dict[str, AttributeAnnotation]:
     type_parameters = type_parameters or {}
 
@@ -83,13 +83,16 @@ def attribute_annotations(
 def _resolved_type_argument(
     argument: Any,
     /,
-    type_parameters: dict[str, Any],
+    type_parameters: dict[Any, Any],
 ) -> Any:
     # replace type variables with their current values, also those nested within the argument
     if isinstance(argument, TypeVar):
         return type_parameters.get(
-            argument.__name__,
-            argument.__bound__ or Any,
+            argument,  # prefer the variable itself, names may repeat between generic types
+            type_parameters.get(
+                argument.__name__,
+                argument.__bound__ or Any,
+            ),
         )
 
     if isinstance(argument, type):
@@ -113,7 +116,7 @@ def _resolve_attribute_annotation(  # noqa: C901, PLR0911, PLR0912, PLR0913
     annotation: Any,
     /,
     self_annotation: AttributeAnnotation | None,
-    type_parameters: dict[str, Any],
+    type_parameters: dict[Any, Any],
     module: str,
     localns: dict[str, Any],
     recursion_guard: Mapping[Any, AttributeAnnotation],  # TODO: verify recursion!
@@ -173,7 +176,7 @@ def _resolve_attribute_annotation(  # noqa: C901, PLR0911, PLR0912, PLR0913
                         type_parameters={
                             **type_parameters,
                             **{
-                                parameter.__name__: _resolved_type_argument(
+                                key: _resolved_type_argument(
                                     argument,
                                     type_parameters=type_parameters,
                                 )
@@ -182,6 +185,7 @@ def _resolve_attribute_annotation(  # noqa: C901, PLR0911, PLR0912, PLR0913
                                     get_args(generic_alias),
                                     strict=False,
                                 )
+                                for key in (parameter.__name__, parameter)
                             },
                         },
                         module=module,
@@ -269,9 +273,12 @@ def _resolve_attribute_annotation(  # noqa: C901, PLR0911, PLR0912, PLR0913
             return _resolve_attribute_annotation(
                 # try to resolve it from current parameters if able
                 type_parameters.get(
-                    annotation.__name__,
-                    # use bound as default or Any otherwise
-                    annotation.__bound__ or Any,
+                    annotation,  # prefer the variable itself, names may repeat between generic types
+                    type_parameters.get(
+                        annotation.__name__,
+                        # use bound as default or Any otherwise
+                        annotation.__bound__ or Any,
+                    ),
                 ),
                 self_annotation=None,
                 type_parameters=type_parameters,
